@@ -117,3 +117,138 @@ Proof.
     repeat split; st; fin.
 Qed.
 
+Record linv (p : params) (s : state) (log : list bmsg) : Prop := mklinv {
+  l_src : forall b, In b log -> src b = self p;
+  l_round1 : decided s = false -> 1 <= round s;
+  l_prep : forall b, In b log -> ty b = Prepare -> decided s = false ->
+           rnd b < round s \/ (rnd b = round s /\ is_dup s JustPrePrepare (rnd b) = true);
+  l_prep_uniq : forall b b', In b log -> In b' log -> ty b = Prepare -> ty b' = Prepare -> rnd b = rnd b' -> val b = val b';
+  l_commit : forall b, In b log -> ty b = Commit -> decided s = false ->
+           rnd b < round s \/ (rnd b = round s /\ is_dup s QPrepares (rnd b) = true);
+  l_commit_uniq : forall b b', In b log -> In b' log -> ty b = Commit -> ty b' = Commit -> rnd b = rnd b' -> val b = val b';
+  l_commit_lock : forall b, In b log -> ty b = Commit -> rnd b <= prepR s /\ (rnd b = prepR s -> val b = prepV s);
+  l_prepR_le : decided s = false -> prepR s <= round s;
+  l_rc : forall b, In b log -> ty b = RoundChange -> decided s = false -> rnd b <= round s;
+  l_rc_lock : forall c b, In c log -> In b log -> ty c = Commit -> ty b = RoundChange -> rnd c < rnd b ->
+              rnd c <= pr b /\ (rnd c = pr b -> val c = pv b)
+}.
+
+Lemma linv_init : forall p, linv p init [].
+Proof. intro p. constructor; simpl; intros; try contradiction; try lia. Qed.
+
+Lemma linv_effects : forall p s s' outs log, linv p s log -> effects p s s' outs -> linv p s' (log ++ bc_mains outs).
+Proof.
+  intros p s s' outs log [L1 L2 L3 L4 L5 L6 L7 L8 L9 L10] E.
+  destruct E as [E1 [E2 [E3 [E4 [E5 [E6 [E7 [E8 [E9 [E10 E11]]]]]]]]]].
+  set (B := bc_mains outs) in *.
+  assert (HB : B = [] \/ exists x, B = [x]).
+  { destruct B as [|x [|y B']]; [left; reflexivity | right; exists x; reflexivity | simpl in E1; lia]. }
+  destruct (decided s) eqn:Hd.
+  - (* already decided *)
+    destruct (E3 eq_refl) as [Hd' [Hpr [Hpv [Hrd Hty]]]].
+    assert (Hnp : forall b, In b B -> ty b <> Prepare /\ ty b <> Commit /\ ty b <> RoundChange).
+    { intros b Hb. destruct (Hty b Hb) as [T|T]; rewrite T; repeat split; discriminate. }
+    constructor; intros; try (rewrite Hd' in *; discriminate).
+    + apply in_app_or in H. destruct H; auto.
+    + apply in_app_or in H, H0. destruct H as [H|H]; [|destruct (Hnp b H); tauto].
+      destruct H0 as [H0|H0]; [|destruct (Hnp b' H0); tauto]. eauto.
+    + apply in_app_or in H, H0. destruct H as [H|H]; [|destruct (Hnp b H); tauto].
+      destruct H0 as [H0|H0]; [|destruct (Hnp b' H0); tauto]. eauto.
+    + apply in_app_or in H. destruct H as [H|H]; [|destruct (Hnp b H); tauto]. rewrite Hpr, Hpv. auto.
+    + apply in_app_or in H, H0. destruct H as [H|H]; [|destruct (Hnp c H); tauto].
+      destruct H0 as [H0|H0]; [|destruct (Hnp b H0); tauto]. eauto.
+  - destruct (decided s') eqn:Hd'.
+    + (* this step decides: nothing is broadcast *)
+      rewrite (E10 eq_refl eq_refl) in *. rewrite app_nil_r.
+      destruct E9 as [[b [Hb _]]|[Hpr Hpv]]; [contradiction|].
+      constructor; intros; try congruence; eauto. all: rewrite ?Hpr, ?Hpv; auto.
+    + (* ordinary step before the decision *)
+      specialize (E4 eq_refl). specialize (E5 eq_refl). specialize (E11 eq_refl (L2 eq_refl)).
+      specialize (L8 eq_refl).
+      constructor; intros; auto.
+      * apply in_app_or in H. destruct H; auto.
+      * apply in_app_or in H. destruct H as [H|H].
+        -- destruct (L3 b H H0 eq_refl) as [Hlt|[Heq Hdup]]; [left; lia|].
+           destruct (Nat.eq_dec (round s') (round s)) as [Er|Er]; [right; split; [lia | apply E5; auto] | left; lia].
+        -- destruct (E6 b H H0) as [_ [Hr [Hdup _]]]. right. auto.
+      * apply in_app_or in H, H0. destruct H as [H|H]; destruct H0 as [H0|H0].
+        -- eauto.
+        -- exfalso. destruct (E6 b' H0 H2) as [_ [Hr [_ Hor]]].
+           destruct (L3 b H H1 eq_refl) as [Hlt|[Heq Hdup]]; [lia|].
+           destruct Hor as [Hor|Hor]; [lia|]. rewrite <- H3 in Hor. congruence.
+        -- exfalso. destruct (E6 b H H1) as [_ [Hr [_ Hor]]].
+           destruct (L3 b' H0 H2 eq_refl) as [Hlt|[Heq Hdup]]; [lia|].
+           destruct Hor as [Hor|Hor]; [lia|]. rewrite H3 in Hor. congruence.
+        -- destruct HB as [HB|[x HB]]; rewrite HB in *; [contradiction|].
+           destruct H as [H|[]], H0 as [H0|[]]. congruence.
+      * apply in_app_or in H. destruct H as [H|H].
+        -- destruct (L5 b H H0 eq_refl) as [Hlt|[Heq Hdup]]; [left; lia|].
+           destruct (Nat.eq_dec (round s') (round s)) as [Er|Er]; [right; split; [lia | apply E5; auto] | left; lia].
+        -- destruct (E7 b H H0) as [_ [Hr [Hr' [Hdup _]]]]. right. split; [lia | assumption].
+      * apply in_app_or in H, H0. destruct H as [H|H]; destruct H0 as [H0|H0].
+        -- eauto.
+        -- exfalso. destruct (E7 b' H0 H2) as [_ [Hr [_ [_ [Hnd _]]]]].
+           destruct (L5 b H H1 eq_refl) as [Hlt|[Heq Hdup]]; [lia|]. rewrite <- H3 in Hnd. congruence.
+        -- exfalso. destruct (E7 b H H1) as [_ [Hr [_ [_ [Hnd _]]]]].
+           destruct (L5 b' H0 H2 eq_refl) as [Hlt|[Heq Hdup]]; [lia|]. rewrite H3 in Hnd. congruence.
+        -- destruct HB as [HB|[x HB]]; rewrite HB in *; [contradiction|].
+           destruct H as [H|[]], H0 as [H0|[]]. congruence.
+      * apply in_app_or in H. destruct H as [H|H].
+        -- destruct (L7 b H H0) as [Hle Heq].
+           destruct E9 as [[c [Hc Hcty]]|[Hpr Hpv]]; [|rewrite Hpr, Hpv; auto].
+           destruct (E7 c Hc Hcty) as [_ [Hr [_ [_ [Hnd [Hpr Hpv]]]]]].
+           destruct (L5 b H H0 eq_refl) as [Hlt|[Heq' Hdup]].
+           ++ split; [lia|]. intro. lia.
+           ++ exfalso. rewrite Heq', <- Hr in Hdup. congruence.
+        -- destruct (E7 b H H0) as [_ [_ [_ [_ [_ [Hpr Hpv]]]]]]. split; [lia | auto].
+      * destruct E9 as [[c [Hc Hcty]]|[Hpr Hpv]]; [|lia].
+        destruct (E7 c Hc Hcty) as [_ [Hr [Hr' [_ [_ [Hpr _]]]]]]. lia.
+      * apply in_app_or in H. destruct H as [H|H].
+        -- specialize (L9 b H H0 eq_refl). lia.
+        -- destruct (E8 b H H0) as [_ [Hr _]]. lia.
+      * apply in_app_or in H, H0. destruct H as [H|H]; destruct H0 as [H0|H0].
+        -- eauto.
+        -- destruct (E8 b H0 H2) as [_ [_ [_ [Hpr Hpv]]]]. rewrite Hpr, Hpv. apply L7; assumption.
+        -- exfalso. destruct (E7 c H H1) as [_ [Hr _]]. specialize (L9 b H0 H2 eq_refl). lia.
+        -- exfalso. destruct HB as [HB|[x HB]]; rewrite HB in *; [contradiction|].
+           destruct H as [H|[]], H0 as [H0|[]]. congruence.
+Qed.
+
+Lemma linv_fstep : forall p s e o s' outs log, 1 <= nodes p -> inv p s -> linv p s log ->
+  fstep p s e o = Some (s', outs) -> linv p s' (log ++ bc_mains outs).
+Proof. intros. eapply linv_effects; [eassumption | eapply fstep_effects; eassumption]. Qed.
+
+(* the log of a label sequence: main parts of all Broadcast callbacks, in order *)
+Definition log_of (ls : list label) : list bmsg := flat_map (fun l => bc_mains (label_outs l)) ls.
+
+Lemma run_linv_from : forall p ls s s' log, 1 <= nodes p -> inv p s -> linv p s log -> run p s ls = Some s' ->
+  linv p s' (log ++ log_of ls).
+Proof.
+  intros p. induction ls as [|l ls IH]; simpl; intros s s' log Hn Hi Hl H.
+  - inversion H; subst. rewrite app_nil_r. assumption.
+  - destruct (step p s l) as [s1|] eqn:E; [|discriminate]. apply step_fstep in E.
+    rewrite app_assoc. eapply IH; [assumption | eapply inv_fstep; eassumption | eapply linv_fstep; eassumption | assumption].
+Qed.
+
+Theorem run_linv : forall p ls s, 1 <= nodes p -> run p init ls = Some s -> linv p s (log_of ls).
+Proof. intros p ls s Hn H. exact (run_linv_from p ls init s [] Hn (inv_init p) (linv_init p) H). Qed.
+
+(* Readings: over every label sequence of the model *)
+Theorem one_prepare_per_round : forall p ls s, 1 <= nodes p -> run p init ls = Some s ->
+  forall b b', In b (log_of ls) -> In b' (log_of ls) -> ty b = Prepare -> ty b' = Prepare -> rnd b = rnd b' -> val b = val b'.
+Proof. intros p ls s Hn H. exact (l_prep_uniq p s _ (run_linv p ls s Hn H)). Qed.
+
+Theorem one_commit_per_round : forall p ls s, 1 <= nodes p -> run p init ls = Some s ->
+  forall b b', In b (log_of ls) -> In b' (log_of ls) -> ty b = Commit -> ty b' = Commit -> rnd b = rnd b' -> val b = val b'.
+Proof. intros p ls s Hn H. exact (l_commit_uniq p s _ (run_linv p ls s Hn H)). Qed.
+
+(* A ROUND-CHANGE for a round above one the process committed in carries a prepared round at least that round,
+   and the committed value if it is exactly that round. *)
+Theorem round_change_carries_lock : forall p ls s, 1 <= nodes p -> run p init ls = Some s ->
+  forall c b, In c (log_of ls) -> In b (log_of ls) -> ty c = Commit -> ty b = RoundChange -> rnd c < rnd b ->
+  rnd c <= pr b /\ (rnd c = pr b -> val c = pv b).
+Proof. intros p ls s Hn H. exact (l_rc_lock p s _ (run_linv p ls s Hn H)). Qed.
+
+Theorem own_broadcasts_signed_self : forall p ls s, 1 <= nodes p -> run p init ls = Some s ->
+  forall b, In b (log_of ls) -> src b = self p.
+Proof. intros p ls s Hn H. exact (l_src p s _ (run_linv p ls s Hn H)). Qed.
